@@ -190,7 +190,7 @@ def run(ctx):
             inputs.append(("enc_shape", "utest", "enc", lf["input"][0]["enc"]))
         elif lf["input"]:
             inputs.append(("shape", "utest", "dec", shape_bytes(lf["input"], lf["outcome"])))
-    for lab, w, data in structured(rng) + mutations(rng, 700 if ctx.quick else 60000):
+    for lab, w, data in structured(rng) + mutations(rng, 700 if ctx.quick else 8000):
         inputs.append((lab, w, "dec", data))
     for n in (50, 2000, 2047, 2048, 5000, 8000, 8100, 8150, 8200, 9000, 20000):
         inputs.append(("enc_long_value", "utest", "enc1", n))
@@ -250,11 +250,12 @@ def run(ctx):
     for f in fails:
         key = f["sig"] + " <" + inputs[f["exec"]][0] + ">"
         hist[key] = hist.get(key, 0) + 1
-    ctx.extra["rejection_signatures"] = hist
+    ctx.extra["monitor_rejections"] = hist
     for f in fails:
         n = f["exec"]
         key = (f["sig"], inputs[n][0])
         if key in seen:
+            ctx.fail(f["sig"], f["why"], {"label": inputs[n][0], "see": "first execution with this signature and input class"})
             continue
         seen.add(key)
         evs = res.get("t%d" % n) or []
